@@ -33,7 +33,8 @@ Cases ==
   \cup {[f |-> "xavier_normal_", shape |-> s, gain |-> g] : s \in FanShapes, g \in Gains}
   \cup {[f |-> fn, shape |-> s, mode |-> m, nl |-> nl, slope |-> sl] :
           fn \in {"kaiming_uniform_", "kaiming_normal_"}, s \in FanShapes, m \in {"fan_in", "fan_out"}, nl \in NLs, sl \in Slopes}
-  \cup {[f |-> fn, shape |-> s] : fn \in {"ones_", "zeros_", "uniform_", "normal_", "constant_"}, s \in Shapes}
+  \* plain fillers, with their numeric arguments given as Python floats or as NumPy float64 scalars (either is a number)
+  \cup {[f |-> fn, shape |-> s, argform |-> af] : fn \in {"ones_", "zeros_", "uniform_", "normal_", "constant_"}, s \in Shapes, af \in {"py", "np64"}}
   \cup {[f |-> "Linear", shape |-> s] : s \in {t \in FanShapes : Len(t) = 2}}
   \cup {[f |-> "Conv1d", shape |-> s] : s \in {t \in FanShapes : Len(t) = 3}}
   \cup {[f |-> "Conv2d", shape |-> s] : s \in {t \in FanShapes : Len(t) = 4}}
@@ -45,8 +46,8 @@ Expect(c) ==
     [] c.f = "kaiming_uniform_" -> [dist |-> "uniform", sq |-> QMul(Gain2(c.nl, c.slope), <<3, IF c.mode = "fan_in" THEN FanIn(c.shape) ELSE FanOut(c.shape)>>)]
     [] c.f = "kaiming_normal_"  -> [dist |-> "normal",  sq |-> QMul(Gain2(c.nl, c.slope), <<1, IF c.mode = "fan_in" THEN FanIn(c.shape) ELSE FanOut(c.shape)>>)]
     [] c.f \in {"Linear", "Conv1d", "Conv2d"} -> [dist |-> "uniform", sq |-> <<1, FanIn(c.shape)>>]     \* U(-1/sqrt(fan_in), 1/sqrt(fan_in))
-    [] c.f = "uniform_"  -> [dist |-> "uniform01", sq |-> Q1]
-    [] c.f = "normal_"   -> [dist |-> "normal", sq |-> Q1]
+    [] c.f = "uniform_"  -> [dist |-> "uniform", sq |-> <<9, 4>>]         \* called with (-3/2, 3/2)
+    [] c.f = "normal_"   -> [dist |-> "normal", sq |-> QI(4)]            \* called with mean 0, std 2
     [] c.f = "ones_"     -> [dist |-> "const", sq |-> Q1]
     [] c.f = "zeros_"    -> [dist |-> "const", sq |-> Q0]
     [] c.f = "constant_" -> [dist |-> "const", sq |-> <<7, 2>>]
